@@ -38,6 +38,7 @@ ASSUMPTIONS = [
 ]
 MIN_NONTRIVIAL = {'quick': 3000, 'thorough': 60000}
 REQUIRED_MONITORS = ['roundtrip', 'unknown-name', 'wait_to_parse',
+                     'channel:bulk',
                      'unknown-name:config-attribute', 'channel:A=B', 'channel:A=C',
                      'channel:split', 'channel:cross',
                      'channel:K', 'channel:M', 'tract:A=B', 'tract:A=C',
@@ -441,6 +442,42 @@ def run_cross(rng, ctx, log, pytrs):
                 f"{[x.qqs for x in dref.tracts]}", dedup=which)
 
 
+# -- the bulk entry points -------------------------------------------------------
+
+def run_bulk(rng, ctx, pytrs):
+    """The keywords of TractList.parse_tracts() / PLSSDesc.parse_tracts() are
+    'the same as in Tract.parse()' and win over each tract's own config --
+    an explicit False over a configured True included."""
+    b = rng.choice(['clean_qq', 'suppress_lot_divs', 'break_halves'])
+    val = rng.random() < 0.5
+    tdesc = 'N/2 of Lot 1, NE, S/2N/2NE/4NE/4'
+    own = f"{b}.{not val}"
+    case = {'kind': 'bulk', 'setting': b, 'keyword': val, 'config': own}
+    ctx.case(['bulk', b, val], True, shape=f"bulk|{b}|{val}", sample=case)
+    ctx.hit('channel:bulk')
+
+    def res(t):
+        return [list(t.lots), list(t.qqs)]
+    with ctx.guard(case):
+        ref = pytrs.Tract(tdesc, trs='154n97w14', config=f"{b}.{val}",
+                          parse_qq=True)
+        a = pytrs.Tract(tdesc, trs='154n97w14', config=own)
+        a.parse(**{b: val})
+        tl = pytrs.TractList([pytrs.Tract(tdesc, trs='154n97w14', config=own)])
+        tl.parse_tracts(**{b: val})
+        d = pytrs.PLSSDesc(f"T154N-R97W Sec 14: {tdesc}", config=own)
+        d.parse_tracts(**{b: val})
+        for label, got in (('Tract.parse', res(a)),
+                           ('TractList.parse_tracts', res(tl[0])),
+                           ('PLSSDesc.parse_tracts', res(d.tracts[0]))):
+            if got != res(ref):
+                ctx.violation(
+                    'bulk-keyword-precedence', case,
+                    f"{label}({b}={val}) on a tract configured {own!r} gives "
+                    f"{got}; configured {b}.{val} it gives {res(ref)}",
+                    dedup=f"{label}|{b}|{val}")
+
+
 # -- round trip ---------------------------------------------------------------
 
 ATTRS16 = ('default_ns', 'default_ew', 'layout', 'wait_to_parse', 'parse_qq',
@@ -641,6 +678,8 @@ def run_shard(shard, ctx):
             run_roundtrip(rng, ctx, pytrs)
             if i % 5 == 0:
                 run_cross(rng, ctx, log, pytrs)
+            if i % 25 == 0:
+                run_bulk(rng, ctx, pytrs)
         return
     if fam == 'single-random':
         for _ in range(shard['n']):
@@ -665,6 +704,10 @@ def replay(case, ctx):
     pytrs, log = _setup(ctx)
     if case['kind'] == 'wait':
         run_wait(ctx, pytrs)
+    elif case['kind'] == 'bulk':
+        rng = ctx.rng('roundtrip', 0)
+        for _ in range(60):
+            run_bulk(rng, ctx, pytrs)
     elif case['kind'] == 'plss':
         run_plss(case['settings'], case['desc'], ctx, log, pytrs,
                  case.get('label', 'replay'))
